@@ -50,3 +50,31 @@ Theorem C06_tag_history_independent : forall h matches pr, In 0 pr -> forall L o
   blocker_check matches pr (run_ops h L ops) = spec_verdict matches L (set_ops ops).
 Proof. exact verdict_after_history. Qed.
 Print Assumptions C06_tag_history_independent.
+
+(* ------------------------------------------------------------------ translator tie: the control
+   structure of src/blocker.rs as extracted on this run (Generated.BlockerGen, written by
+   tools/gen_fragments/c01_blocker_structure.py) denotes the hand-written model *)
+From Coq Require Import String.
+From Adb Require Import Struct_Proofs.
+Import Generated.BlockerGen.
+
+(* incremental and batch construction categorise alike; the duplicate test looks where add_filter
+   stores; optimize() drops the address-keyed regex cache *)
+Theorem C06_src_add_agrees_with_new : forall f c e,
+  run_chain (pv_of f c e) add_chain = run_chain (pv_of f c e) new_chain.
+Proof. exact add_chain_agrees_with_new. Qed.
+Print Assumptions C06_src_add_agrees_with_new.
+
+Theorem C06_src_add_guard :
+  add_guard = [(PAtom A_is_badfilter, "err:BadFilterAddUnsupported"); (PAtom A_exists, "err:FilterExists")]%string
+  /\ add_pre = [(PAtom A_is_redirect, "redirects"%string)].
+Proof. exact (conj add_guard_is_model add_pre_is_redirects). Qed.
+Print Assumptions C06_src_add_guard.
+
+Theorem C06_src_filter_exists_chain : forall v, run_chain v exists_chain = exists_list_v v.
+Proof. exact exists_chain_is_model. Qed.
+Print Assumptions C06_src_filter_exists_chain.
+
+Theorem C06_src_optimize_clears_cache : optimize_clears_regex_cache = true.
+Proof. exact optimize_clears_cache. Qed.
+Print Assumptions C06_src_optimize_clears_cache.
